@@ -276,12 +276,14 @@ class DelAttrMethod(MethodDescriptor):
 
             attr_spec = self.__spec_class__.attrs.get(attr)
 
-            if (
-                force
-                or not attr_spec
-                or attr_spec.default is MISSING
-                or attr_spec.is_masked
-            ):
+            # The (mutate-safe) value a newly constructed instance would hold:
+            # the default, the result of the default factory, or the overriding
+            # class attribute of a subclass.
+            default = MISSING
+            if not force and attr_spec and not attr_spec.is_masked:
+                default = attr_spec.lookup_default_value(type(self))
+
+            if default is MISSING:
                 self.__delattr__.__raw__(self, attr)
                 if not skip_invalidation:
                     invalidate_attrs(self, attr)
@@ -290,7 +292,7 @@ class DelAttrMethod(MethodDescriptor):
             return mutate_attr(
                 obj=self,
                 attr=attr,
-                value=protect_via_deepcopy(attr_spec.default),  # handle default factory
+                value=default,
                 inplace=True,
                 force=True,
                 skip_invalidation=skip_invalidation,
